@@ -225,6 +225,9 @@ func TestVerifC19Handler(t *testing.T) {
 		if err := vfc19.Replay(mk, res, vfc19.Options{Lite: true, Profile: os.Getenv("VERIF_C19_KEYS"), MaxWalks: vfh.EnvInt("VERIF_C19_MAXWALKS", 0)}); err != nil {
 			t.Fatal(err)
 		}
+		if err := vfc19.SecretMatrix(mk, res, os.Getenv("VERIF_C19_KEYS")); err != nil {
+			t.Fatal(err)
+		}
 		vfC19HostnameRules(t, res)
 	})
 }
